@@ -81,6 +81,10 @@ def _exhaustive(chunk):
         finally:
             W.CONCRETE[0] = False
         acc.n += execs
+        if keys is None:
+            acc.count("bf_cut_off")       # only happens when the code under test offers far more choices than /repo's
+            W.add_violations(acc, verdicts, item, n)
+            continue
         acc.count("bf_items")
         akeys = {W.abstract_key(k) for k in keys}
         if akeys != s.seen:
@@ -119,7 +123,8 @@ def run(ctx):
         elif n - len(it[2]) <= 14:
             short.append(it)
     bf = par.merge(par.pmap(_exhaustive, short, seed=ctx.seed))
-    au = par.merge(par.pmap(_audit, [it for i, it in enumerate(its) if i % 30 == 0][:40], seed=ctx.seed))
+    small = [it for it in its if W.make_run(it)[1] <= 60]
+    au = par.merge(par.pmap(_audit, [it for i, it in enumerate(small) if i % 20 == 0][:40], seed=ctx.seed))
     for sig, d in W.smallest_per_signature(acc.violations + bf.violations):
         if sig.startswith("harness:"):
             raise HarnessError("%s %r" % (sig, d))
@@ -140,6 +145,7 @@ def run(ctx):
         "per_harness": {k[6:]: v for k, v in sorted(acc.counters.items()) if k.startswith("items:")},
         "uncached_enumeration_items": bf.counters.get("bf_items", 0),
         "uncached_enumeration_executions": bf.n,
+        "uncached_enumeration_cut_off": bf.counters.get("bf_cut_off", 0),
         "search_audits": au.n,
         "deviation_bounded": "nothing: every short-read pattern of every message is explored",
         "distinct_nontrivial": len(acc.nontrivial),
